@@ -16,15 +16,17 @@ import tempfile
 from harness import core, histcheck, isoapi
 from harness.props import c01, c04
 
-LEAN_MODULES = ['Pycdlib.Props.C03', 'Pycdlib.Props.TiePack', 'Pycdlib.Props.C03Dir', 'Pycdlib.Props.C03Pt']
+LEAN_MODULES = ['Pycdlib.Props.C03', 'Pycdlib.Props.TiePack', 'Pycdlib.Props.C03Dir', 'Pycdlib.Props.C03Pt', 'Pycdlib.Props.C03PtOrder']
 THEOREMS = ['Pycdlib.decDR_encDR', 'Pycdlib.decPTR_encPTR', 'Pycdlib.decBoth16_both16', 'Pycdlib.decBoth32_both32',
             'Pycdlib.decBoth32_rejects', 'Pycdlib.dr_len_even', 'Pycdlib.writer_no_straddle', 'Pycdlib.writer_matches_cache',
             'Pycdlib.dr_recalc_tie', 'Pycdlib.dr_recalc_init_tie',
             'Pycdlib.DirBytes.parse_renderDir', 'Pycdlib.DirBytes.dir_roundtrip', 'Pycdlib.DirBytes.encDR_recOk', 'Pycdlib.DirBytes.parse_zeros',
-            'Pycdlib.PtBytes.parse_render', 'Pycdlib.PtBytes.le_be_agree', 'Pycdlib.PtBytes.render_length']
+            'Pycdlib.PtBytes.parse_render', 'Pycdlib.PtBytes.le_be_agree', 'Pycdlib.PtBytes.render_length',
+            'Pycdlib.PtOrder.parents_sorted', 'Pycdlib.PtOrder.parent_not_later']
 PARTIAL = {
     'master_wellformed_partial': 'proved: record codecs, packing, a whole directory extent reads back as the records written '
-    '(DirBytes.dir_roundtrip), a whole path table reads back as its records in both byte orders (PtBytes.parse_render, le_be_agree). '
+    '(DirBytes.dir_roundtrip), a whole path table reads back as its records in both byte orders (PtBytes.parse_render, le_be_agree), the table the writer emits is ordered by parent directory number and no record names a '
+    'later parent, for every hierarchy (PtOrder.parents_sorted, parent_not_later). '
     'Not one theorem: the image-level predicate (descriptor set, dot/dotdot targets, sortedness, path table = level-order listing with '
     'parent numbers) — the reader\'s error list evaluated on pycdlib\'s bytes per history',
     'sortedness': 'pycdlib orders records by raw identifier bytes (dr.py __lt__); ECMA-119 9.3 order differs when versions differ or '
@@ -141,6 +143,35 @@ def post(ctx, c, rep):
                             dq.append(ch)
                 if not order or len(order) > 400:
                     continue
+                # order and parent directory numbers against the model (PtOrder.table; theorems parents_sorted, parent_not_later):
+                # the hierarchy is read off the object, the table off the IMAGE (extent, parent number per record)
+                num, kids, dq2 = {id(vd.root_directory_record()): 0}, [], collections.deque([vd.root_directory_record()])
+                ext_of = {0: vd.root_directory_record().extent_location()}
+                while dq2:
+                    d = dq2.popleft()
+                    cs = []
+                    for ch in d.children:
+                        if ch.is_dir() and not ch.is_dot() and not ch.is_dotdot():
+                            if ch.rock_ridge is not None and ch.rock_ridge.child_link_record_exists():
+                                continue
+                            num[id(ch)] = len(num)
+                            ext_of[num[id(ch)]] = ch.extent_location()
+                            cs.append(num[id(ch)])
+                            dq2.append(ch)
+                    if cs:
+                        kids.append('%d:%s' % (num[id(d)], '.'.join(map(str, cs))))
+                f.seek(vd.path_table_location_le * 2048)
+                raw = f.read(vd.path_tbl_size)
+                on_image, pos = [], 0
+                while pos + 8 <= len(raw):
+                    n = raw[pos]
+                    on_image.append('%d:%d' % (int.from_bytes(raw[pos + 2:pos + 6], 'little'), int.from_bytes(raw[pos + 6:pos + 8], 'little')))
+                    pos += 8 + n + (n % 2)
+                want = ctx.driver.ask(['ptorder 0 %s' % (','.join(kids) or '-')])[0]
+                want = ','.join('%d:%s' % (ext_of.get(int(e.split(':')[0]), -1), e.split(':')[1]) for e in want.split(',') if e)
+                ctx.traces_validated += 1
+                if want != ','.join(on_image):
+                    ctx.disagree('S-codec/ptorder', 'path table (extent:parent) on the image %s, model %s' % (','.join(on_image)[:120], want[:120]), rp)
                 toks = ','.join('%d:%d:%s' % (p.extent_location, p.parent_directory_num, p.directory_identifier.hex()) for p in order)
                 for be, loc in ((0, vd.path_table_location_le), (1, vd.path_table_location_be)):
                     f.seek(loc * 2048)
